@@ -56,6 +56,7 @@ def run(ctx):
     rule_conncount(ctx, F)
     import c02
     c02.rule_shim(ctx, F)   # the length prefix written on a stream is kept current by StreamTarget (shared with C02)
+    rule_reqopt(ctx, F)
 
 
 def rule_partial(ctx, F):
@@ -696,3 +697,40 @@ def rule_conncount(ctx, F):
                "connection whose set-up fails in between (a failed TLS handshake) is never counted down, and "
                "max_concurrent_connections such failures leave the server refusing everyone" % (p.split("net::server::")[-1], owner.split("::")[-1]))
     ctx.ob(R, "net::server", "a place that raises the connection count", n >= 1, "inc_num_connections is never called", nontrivial=False)
+
+
+def rule_reqopt(ctx, F):
+    """512 octets for a requestor without EDNS: whether the requestor used EDNS is read from the *request*.  Where
+    MandatoryMiddlewareSvc::truncate lowers the limit to MINIMUM_RESPONSE_BYTE_LEN, the dominating fact is
+    `request.message().opt().is_none()` -- an OPT in the response says what the service attached, not what the
+    requestor can receive."""
+    R = "C16.reqopt"
+    ctx.floor(R, 1)
+    b = F.one_body(r"^net::server::middleware::mandatory::MandatoryMiddlewareSvc::<.*>::truncate$")
+    if not ctx.anchor(R, "MandatoryMiddlewareSvc::truncate", b):
+        return
+    n = 0
+    for bb, t in b.calls():
+        if not (t["fn"] or "").endswith("cmp::min"):
+            continue
+        args = [deep_strip(b.term_of_operand(a)) for a in t["args"]]
+        if not any(const_value(a) == 512 for a in args):
+            continue
+        n += 1
+        from_req = False
+        other = None
+        for s, o in outcome_facts(b, bb, F):
+            s = deep_strip(s)
+            if o is True and s[0] == "call" and re.search(r"Option::<.*>::is_none$|<T>::is_none$", s[1] or ""):
+                inner = [x for x in walk(s) if x[0] == "call" and re.search(r"Message::<.*>::opt$", x[1] or "")]
+                if inner:
+                    roots = [x for x in walk(inner[0]) if x[0] == "arg"]
+                    if roots and all(r == ("arg", 1) for r in roots):
+                        from_req = True
+                    else:
+                        other = show(inner[0])[:80]
+        ctx.ob(R, b, "the 512-octet limit applies when the request has no OPT", from_req,
+               "truncate() lowers the limit to 512 octets under a test of %s instead of request.message().opt().is_none(): a "
+               "requestor that did not use EDNS is sent more than 512 octets whenever the service put an OPT into the response"
+               % (other or "something else"), b.where(bb))
+    ctx.anchor(R, "min(max_response_size, 512) in truncate", n >= 1, b.where())
